@@ -68,6 +68,13 @@ CLAIMED = {
         "Gauss nodes come from NumPy/SciPy root finders (tolerance 1e5 eps x natural scale, others 1e4 eps); parameter combinations whose defining node map is not representable in float64 are inadmissible (counted, named in the evidence).",
         "DESIGN.md 3/C01",
     ),
+    "C17": (
+        "exploration",
+        "complete product exponent lattice (41 values over 10 decades) x radius lattice (23 values incl. 0, both sides of the 1e-12 switch, 1e8, inf) x {s,p} x {normalised, not} against the Coulomb integral of the documented density evaluated with multiprecision incomplete gamma functions; all (K_s,K_p) configurations of the multi-centre routine; every element 1..118 x 5 spellings through the loader",
+        "Every lattice combination is evaluated (about 5e3 comparisons), including both limit branches and the large-r charge limit; the oracle is an independent derivation (radial Coulomb integrals), validated at start-up against numerical quadrature and the radial Poisson equation. The loader's call histories are explored under C19.",
+        "mpmath gammainc at 30 digits; relative tolerance 1e-11; VERIF_SEED perturbs exponents and radii inside their lattice cells.",
+        "DESIGN.md 3/C17",
+    ),
 }
 
 NOT_YET = "check not built yet in this session (work in progress; see DESIGN.md section 8 for the order of work)"
